@@ -13,10 +13,10 @@ func init() { register("C14", checkC14) }
 // functions whose call can wait indefinitely on the network / another goroutine
 var waitingCalls = map[string]bool{
 	"io.Copy": true, "io.CopyN": true, "io.CopyBuffer": true, "io.ReadAll": true, "io.ReadFull": true,
-	"(*bytes.Buffer).ReadFrom":                         true,
-	"(*net/http.Client).Do":                            true,
-	"(*golang.org/x/sync/singleflight.Group).Do":       true,
-	"(*golang.org/x/sync/singleflight.Group).DoChan":   true,
+	"(*bytes.Buffer).ReadFrom":                       true,
+	"(*net/http.Client).Do":                          true,
+	"(*golang.org/x/sync/singleflight.Group).Do":     true,
+	"(*golang.org/x/sync/singleflight.Group).DoChan": true,
 	"time.Sleep":                                       true,
 	"(*sync.WaitGroup).Wait":                           true,
 	"(*sync.Cond).Wait":                                true,
